@@ -165,8 +165,12 @@ def run(ctx):
 
 
 def search(ctx):
+    """Obligation or correspondence broken and no observed failure: look further within ctx.search_budget_s."""
     if ctx.thorough:
         return
-    ctx.tier = "thorough"
-    ctx.thorough = True
+    if getattr(ctx, "search_budget_s", 900) >= 600:
+        ctx.tier = "thorough"
+        ctx.thorough = True
+    else:
+        ctx.seed += 7919            # quick budget: one more quick pass with another seed
     run(ctx)
